@@ -1,6 +1,7 @@
 package main
 
 import (
+	"encoding/json"
 	"errors"
 	"fmt"
 	"time"
@@ -857,6 +858,8 @@ type XKClaims struct {
 	Must  int64    `cbor:"-75506,keyasint" json:"k-must"`
 	// an opaque claim kept as the bytes it was encoded in
 	Raw cbor.RawMessage `cbor:"-75508,keyasint,omitempty" json:"k-raw,omitempty"`
+	// no omitempty: a nil list is on the wire as null
+	Feat []string `cbor:"-75509,keyasint" json:"k-feat"`
 }
 
 // GetWide renders the additional claims, nil and empty told apart.
@@ -872,7 +875,7 @@ func (o *XKClaims) GetWide() string {
 	} else {
 		s += fmt.Sprintf(" list=%q", o.List)
 	}
-	s += fmt.Sprintf(" raw=%x", []byte(o.Raw))
+	s += fmt.Sprintf(" raw=%x feat=%q", []byte(o.Raw), o.Feat)
 	if o.Inner == nil {
 		s += " inner=nil"
 	} else if o.Inner.N == nil {
@@ -970,6 +973,13 @@ func (c XSwComponent) MarshalCBOR() ([]byte, error) { //nolint:gocritic
 		return nil, errInjectedCodec
 	}
 	return xem.Marshal(c.SwComponent)
+}
+
+func (c XSwComponent) MarshalJSON() ([]byte, error) { //nolint:gocritic
+	if codecHit("codec.swmarshal_err") {
+		return nil, errInjectedCodec
+	}
+	return json.Marshal(c.SwComponent)
 }
 
 // XPtrClaims embeds the base claims type BY POINTER: the embedding-aware
